@@ -283,6 +283,9 @@ class SoCBusHandler(LiteXModule):
                 # Stay inside the Address Space (a Search Region can extend beyond it).
                 if (origin + size_pow2) > 2**self.address_width:
                     break
+                # Stay inside the IO Region (the search is bounded by its power of two size, which can extend beyond it).
+                if (not cached) and ((origin + size) > (search_region.origin + search_region.size)):
+                    break
                 # Create a Candidate.
                 candidate = SoCRegion(origin=origin, size=size, cached=cached)
                 overlap   = False
